@@ -357,8 +357,16 @@ pub fn run_property<P: Prop>(prop: &P, opts: &RunOpts) -> RunSummary {
             let e = known_counts.entry(k).or_insert((0, d));
             e.0 += n;
         }
-        if violation.is_none() {
-            violation = o.violation;
+        // several shards may have found one: keep the smallest case
+        if let Some(v) = o.violation {
+            let size = |c: &P::Case| serde_json::to_string(c).map(|t| t.len()).unwrap_or(usize::MAX);
+            let better = match &violation {
+                None => true,
+                Some((cur, _)) => size(&v.0) < size(cur),
+            };
+            if better {
+                violation = Some(v);
+            }
         }
         if aborted.is_none() {
             aborted = o.aborted;
